@@ -221,8 +221,12 @@ def run(R):
 
 def _convert(R, rng, d, j, src_dir, info, src_acc, src_kind, src_scales):
     dst = os.path.join(d, f"dst{j}")
-    dst_kind = rng.choice(["deep-gz", "flat", "flat-gz", "deep", "sharded", "sharded-gz"])
+    # destination kinds in rotation (every kind occurs in every run), not at random
+    kinds = ["sharded-gz", "deep-gz", "flat", "sharded", "flat-gz", "deep"]
+    _convert.counter = getattr(_convert, "counter", 0) + 1
+    dst_kind = kinds[_convert.counter % len(kinds)]
     copy_info = rng.random() < 0.3 and not dst_kind.startswith("sharded")
+    R.count(f"dest-kind:{dst_kind}")
     src_dt = info["data_type"]
     dinfo = json.loads(json.dumps(info))
     if not copy_info:
